@@ -182,7 +182,9 @@ int main(int argc, char** argv)
   }
   e.load_platform(platform);
   hosts = e.get_all_hosts();
-  links = e.get_all_links();
+  for (auto* l : e.get_all_links())
+    if (l->get_name().find("__loopback__") == std::string::npos) // loopback links have no container in the traces
+      links.push_back(l);
   for (auto const& w : decls) {
     if (w[0] == "CAT")
       simgrid::instr::declare_tracing_category(w[1]);
